@@ -153,6 +153,16 @@ pub fn build_from(cs: &[i32], stm_white: bool, cr: &str, ep: Option<u8>) -> Boar
     }
 }
 
+/// project() plus the two move counters when they are not the defaults (so that a replay rebuilds the same board)
+pub fn project6(b: &Board) -> String {
+    let (h, m) = (b.halfmove_clock as u64, b.fullmove_counter as u64);
+    if h == 0 && m == 1 {
+        project(b)
+    } else {
+        format!("{} {} {}", project(b), h, m)
+    }
+}
+
 /// Parse the four-field FEN text produced by ChessRules!ToFEN4 (own parser, trusted).
 pub fn build(fen4: &str) -> Result<Board, String> {
     let f: Vec<&str> = fen4.split(' ').collect();
